@@ -270,6 +270,7 @@ def run_check(machine, tier, replay=None):
         "samples": samples or [{"note": "no sample recorded"}],
         "steps": int(tot["steps"]),
         "runs_per_hour": round(tot["histories"] / max(wall, 1e-9) * 3600.0),
+        "seeds_per_hour": round(tot["histories"] / max(wall, 1e-9) * 3600.0),  # one derived seed per history: sha256(VERIF_SEED/property/history/index)
         "steps_per_hour": round(tot["steps"] / max(wall, 1e-9) * 3600.0),
         "ops_by_kind": dict(tot["ops"]),
         "faults_fired": {"R_refused_operations": dict(tot["refused"]), "S_restarts_and_A_aliasing": dict(tot["restarts"])},
